@@ -15,11 +15,24 @@ RULE = ("case = a valid op prefix (generators of C02-C04/C16) bringing an Array/
         "few format arguments; unhonourable resize}, then a valid suffix. Oracle: the call raised, the exception is in the "
         "admissible set for that fault, the object's full dump (and for Probe elements the token ledger) and the exception "
         "depth are unchanged, the suffix agrees with the reference model, no sanitizer report. Every matrix cell is visited at "
-        "container sizes 0, 1, 7 by the enumerated phase; the rest is sampled. non-trivial = fault applied to a non-empty "
+        "container sizes 0, 1, 7 by the enumerated phase; the rest is sampled. Further cells: NULL / wrong-typed arguments in every "
+        "position (set, push_at, rem, mem, get, pop_at with NULL; mem / rem of an element of another type; a non-numeric index "
+        "for set / pop_at / push_at; a NULL item inside concat's source; mem / rem of a NULL key on maps; more operations on a NULL "
+        "container); the same failing call repeated 2-3 times; Zip / Map get out of range and Filter get / len / set (heap and "
+        "stack forms: raised, the view still walks the same items, the inputs are unchanged); a table of 71 (type, operation) "
+        "pairs where the class or the member is not implemented (ClassError, receiver unchanged); generated formats of 1-4 "
+        "conversions with fewer arguments than conversions for print_to (String / File sink) and scan_from (String / File "
+        "source: FormatError, source unchanged, destinations still valid objects); constructors given one item that cannot "
+        "be stored (Array / List element, Table / Tree key or value; wrong type or NULL; first / middle / last): raised, the "
+        "next collection is clean, the ledger consistent, the next container works. Held back because they fail on the pinned "
+        "tree (reported, cases in notes/C12-*.case, runnable with --replay): assign / concat from a source that is not "
+        "iterable or NULL, Array constructor with a bad item that is not the last. non-trivial = fault applied to a non-empty "
         "object and followed by >= 3 valid ops. distinct = distinct case JSON.")
 ASSUMPTIONS = ["admissible exception sets are taken from the property statement (index -> IndexOutOfBoundsError, absent key -> KeyError, absent element -> ValueError, "
                "NULL -> ValueError, wrong type -> TypeError/ValueError/ClassError, unimplemented -> ClassError, too few args -> FormatError, resize -> FormatError/ResourceError)",
-               "known findings switch off exactly one assertion of one cell (see known_findings.txt)"]
+               "known findings switch off exactly one assertion of one cell (see known_findings.txt)",
+               "NULL arguments may be reported as ValueError or, where the call first dispatches on the element type, as TypeError / ClassError; mem of a NULL / wrong-typed element is only a fault when the container has an element to compare with; Tuples are heterogeneous (no wrong-typed element, NULL is storable)",
+               "scan_from stores %s into the destination's own buffer (C semantics): destinations are generated with room; the values of destinations in front of a missing one are not asserted (scan twin of print-too-few-partial-output)"]
 
 IDX = "IndexOutOfBoundsError"
 WRONG = ("TypeError", "ValueError", "ClassError")
@@ -34,13 +47,40 @@ def prepare(tier):
 
 SEQ_FAULTS = ["get-idx", "set-idx", "pop_at-idx", "push_at-idx", "pop-empty", "rem-absent", "push-wrongtype", "push-null",
               "set-wrongtype", "push_at-wrongtype", "concat-wrongitem", "append-wrongtype", "resize-grow-tuple",
-              "get-wrongkey", "null-object", "concat-null", "sort-list"]
+              "get-wrongkey", "null-object", "concat-null", "sort-list",
+              # NULL / wrong-typed arguments in the remaining positions
+              "set-null", "push_at-null", "rem-null", "mem-null", "get-null", "pop_at-null", "mem-wrongtype", "rem-wrongtype",
+              "set-wrongidx", "pop_at-wrongidx", "push_at-wrongidx", "concat-nullitem"]
 MAP_FAULTS = ["get-absent", "rem-absent", "set-wrongkey", "set-wrongval", "get-wrongkey", "mem-wrongkey", "rem-wrongkey",
-              "resize-shrink", "set-nullkey", "set-nullval", "get-nullkey", "null-object", "push-on-map"]
-STR_FAULTS = ["rem-absent", "concat-null", "concat-int", "get-member-empty", "print-too-few", "push-unimplemented", "cint-unimplemented"]
+              "resize-shrink", "set-nullkey", "set-nullval", "get-nullkey", "null-object", "push-on-map",
+              "mem-nullkey", "rem-nullkey"]
+STR_FAULTS = ["rem-absent", "concat-null", "concat-int", "get-member-empty", "print-too-few", "push-unimplemented", "cint-unimplemented",
+              "print-too-few-gen", "scan-too-few"]
 VAL_FAULTS = ["range-get-idx", "slice-get-idx", "int-len", "int-push", "int-assign-string", "float-assign-string",
-              "print-too-few-string", "type-call-new-null", "range-push", "int-cstr"]
+              "print-too-few-string", "type-call-new-null", "range-push", "int-cstr",
+              "zip-get-idx", "map-get-idx", "filter-get", "unimpl", "ctor-baditem"]
 IDXKINDS = ["len", "neglen1", "far", "negfar", "max", "min"]
+# Cells that failed on the pinned tree and were repaired (regress/C12/*.case, known_findings.txt `fixed:` lines): a source
+# that is not iterable / NULL for assign and concat
+HELD_SEQ = ["assign-nonseq", "assign-null", "concat-nonseq"]
+HELD_MAP = ["assign-nonmap", "assign-null"]
+SEQ_FAULTS = SEQ_FAULTS + HELD_SEQ
+MAP_FAULTS = MAP_FAULTS + HELD_MAP
+# (receiver constructor, dump before/after, [operations the type does not implement]) for the "unimpl" cell: a class that is
+# not implemented, or an instance whose member is left empty, raises ClassError and leaves the receiver as it was
+UNIMPL = [
+    ("t:Int i:7", "i7", ["iter %0 init %9", "iter %0 last %9", "deref %0", "ref %0 %0", "resize %0 3", "concat %0 i:1", "append %0 i:1",
+                         "sort %0", "pop %0", "pop_at %0 i:0", "get %0 i:0", "set %0 i:0 i:1", "mem %0 i:1", "rem %0 i:1",
+                         "ktype %0", "vtype %0", "itype %0", "empty %0", "mapcall %0"]),
+    ("t:Float f:3ff8000000000000", "f3ff8000000000000", ["len %0", "cstr %0", "push %0 i:1", "iter %0 init %9", "get %0 i:0", "resize %0 1"]),
+    ("t:Array t:Int i:1 i:2", "A[i1,i2]", ["ktype %0", "vtype %0", "cint %0", "cstr %0", "cfloat %0", "deref %0", "mapcall %0"]),
+    ("t:List t:Int i:1 i:2", "L[i1,i2]", ["ktype %0", "vtype %0", "cint %0", "cstr %0", "deref %0", "sort %0", "mapcall %0"]),
+    ("t:Table t:Int t:Int i:1 i:2", "H{i1:i2}", ["sort %0", "pop %0", "push %0 i:1", "pop_at %0 i:0", "concat %0 %0", "append %0 i:1", "cint %0", "deref %0"]),
+    ("t:Tree t:Int t:Int i:1 i:2", "T{i1:i2}", ["sort %0", "pop %0", "push %0 i:1", "push_at %0 i:1 i:0", "concat %0 %0", "cint %0", "cstr %0"]),
+    ("t:Range i:5", "R(0,5,1)", ["set %0 i:0 i:1", "rem %0 i:1", "resize %0 2", "sort %0", "ktype %0", "push %0 i:1", "pop %0", "concat %0 %0", "cint %0"]),
+    ("t:String s:6162", "s6162", ["iter %0 init %9", "sort %0", "pop %0", "deref %0", "ktype %0", "itype %0", "mapcall %0", "get %0 i:0", "set %0 i:0 i:1"]),
+]
+UNIMPL_CELLS = [(ti, oi) for ti, (_, _, ops) in enumerate(UNIMPL) for oi in range(len(ops))]
 
 
 @st.composite
@@ -52,17 +92,36 @@ def _case(draw):
         else:
             base = draw(seqs.seq_case(kinds=("Array", "List"), ets=("Int", "String", "Probe"), max_ops=14))
         return {"fam": fam, "base": base, "at": draw(st.integers(0, 1000)), "fault": draw(st.sampled_from(SEQ_FAULTS)),
-                "idx": draw(st.sampled_from(IDXKINDS))}
+                "idx": draw(st.sampled_from(IDXKINDS)), "rep": draw(st.sampled_from([1, 1, 2, 3]))}
     if fam == "map":
         base = draw(maps.map_case(draw(st.sampled_from(["Table", "Tree"]))))
         base["ops"] = base["ops"][:16]
         return {"fam": fam, "base": base, "at": draw(st.integers(0, 1000)), "fault": draw(st.sampled_from(MAP_FAULTS)),
-                "k": draw(st.integers(0, 1000))}
+                "k": draw(st.integers(0, 1000)), "rep": draw(st.sampled_from([1, 1, 2, 3]))}
     if fam == "str":
-        return {"fam": fam, "init": draw(gen.cbytes(12)).hex(), "fault": draw(st.sampled_from(STR_FAULTS)),
+        case = {"fam": fam, "init": draw(gen.cbytes(12)).hex(), "fault": draw(st.sampled_from(STR_FAULTS)),
                 "suffix": draw(gen.cbytes(5)).hex()}
-    return {"fam": "val", "fault": draw(st.sampled_from(VAL_FAULTS)), "idx": draw(st.sampled_from(IDXKINDS)),
+        if case["fault"] in ("print-too-few-gen", "scan-too-few"):
+            # a format of 1-4 conversions and fewer arguments than conversions; sink / source a String or a File
+            convs = draw(st.lists(st.sampled_from(["i", "s", "f", "$", "c", "li", "5i", "-6s", ".2f"]), min_size=1, max_size=4))
+            case.update(convs=convs, nargs=draw(st.integers(0, len(convs) - 1)), sink=draw(st.sampled_from(["String", "String", "File"])),
+                        pos=draw(st.sampled_from(["start", "end"])), lits=draw(st.lists(st.sampled_from(["", " ", "x", ", ", "%%", "ab "]), min_size=5, max_size=5)))
+        return case
+    case = {"fam": "val", "fault": draw(st.sampled_from(VAL_FAULTS)), "idx": draw(st.sampled_from(IDXKINDS)),
             "n": draw(st.integers(0, 9)), "step": draw(st.sampled_from([1, 2, 3, -1, -2]))}
+    if case["fault"] == "unimpl":
+        case["u"] = draw(st.integers(0, len(UNIMPL_CELLS) - 1))
+        case["rep"] = draw(st.sampled_from([1, 2]))
+    elif case["fault"] == "ctor-baditem":
+        kind = draw(st.sampled_from(["Array", "List", "Table", "Tree"]))
+        n = draw(st.integers(1, 6))
+        bad = draw(st.integers(0, n - 1))
+        case.update(kind=kind, et=draw(st.sampled_from(["Int", "String", "Probe"])), n=n, bad=bad,
+                    how=draw(st.sampled_from(["wrongtype", "null"])), side=draw(st.sampled_from(["key", "val"])))
+    elif case["fault"] in ("zip-get-idx", "map-get-idx", "filter-get"):
+        case["form"] = draw(st.sampled_from(["heap", "stack"]))
+        case["m"] = draw(st.integers(0, 9))
+    return case
 
 
 def strategy(tier):
@@ -117,7 +176,54 @@ def run_seq(ctx, case):
     applicable = True
     strict_unchanged = True
     key = None
-    if f in ("get-idx", "set-idx", "pop_at-idx"):
+    fault_start = len(P.lines)
+    NULLISH = ("ValueError",) + WRONG
+    if f in ("set-null", "push_at-null"):
+        # Tuples hold any pointer: not a fault there
+        if kind == "Tuple" or n == 0:
+            applicable = False
+        elif f == "set-null":
+            P.add("set %s i:%d null" % (c, case["at"] % n), expect_exc(*NULLISH))
+        else:
+            P.add("push_at %s null i:%d" % (c, case["at"] % n), expect_exc(*NULLISH))
+    elif f in ("rem-null", "get-null", "pop_at-null"):
+        P.add("%s %s null" % (f[:-5], c), expect_exc(*NULLISH))
+    elif f == "mem-null":
+        if n == 0:
+            applicable = False          # nothing to compare with: mem is simply false
+        else:
+            P.add("mem %s null" % c, expect_exc(*NULLISH))
+    elif f in ("mem-wrongtype", "rem-wrongtype"):
+        # an element of another type than the container's element type (Tuples are heterogeneous: not a fault there)
+        if kind == "Tuple" or (f == "mem-wrongtype" and n == 0):
+            applicable = False
+        else:
+            P.add("%s %s %s" % (f[:3], c, OTHER[et]), expect_exc(*NULLISH))
+    elif f in ("set-wrongidx", "pop_at-wrongidx", "push_at-wrongidx"):
+        # an index object that is not a number
+        v = r.elem_arg(seqs_default(et)) if r.room() else None
+        if v is None:
+            applicable = False
+        elif f == "set-wrongidx":
+            P.add("set %s s:78 %s" % (c, v), expect_exc(*WRONG))
+        elif f == "pop_at-wrongidx":
+            P.add("pop_at %s s:78" % c, expect_exc(*WRONG))
+        else:
+            P.add("push_at %s %s s:78" % (c, v), expect_exc(*WRONG))
+    elif f == "concat-nullitem":
+        if kind == "Tuple":
+            applicable = False
+        else:
+            good = seqs_default(et)
+            P.add("stup %%9 %s null" % good)
+            P.add("concat %s %%9" % c, expect_exc(*NULLISH))
+            if known_off("concat-partial-append") and not case.get("strict"):
+                r.model.append(good)          # same mechanism as concat-wrongitem (listed finding): the good prefix stays
+    elif f in ("assign-nonseq", "assign-null", "concat-nonseq"):
+        # a source that is not iterable / NULL
+        src = "null" if f == "assign-null" else "i:5"
+        P.add("%s %s %s" % (f.split("-")[0], c, src), expect_exc(*NULLISH))
+    elif f in ("get-idx", "set-idx", "pop_at-idx"):
         i = bad_index(case["idx"], n)
         if f == "get-idx":
             P.add("get %s i:%d" % (c, i), expect_exc(IDX))
@@ -214,6 +320,9 @@ def run_seq(ctx, case):
     elif f == "null-object":
         P.add("push null i:1", expect_exc("ValueError"))
         P.add("len null", expect_exc("ValueError"))
+        for line in ("pop null", "get null i:0", "set null i:0 i:1", "rem null i:1", "mem null i:1", "pop_at null i:0", "push_at null i:1 i:0",
+                     "resize null 1", "concat null %s" % c, "sort null", "iter null init %9", "itype null", "copy %9 null", "assign null i:1")[case["at"] % 7::7]:
+            P.add(line, expect_exc("ValueError"))
     elif f == "sort-list":
         if kind != "List":
             applicable = False
@@ -223,6 +332,10 @@ def run_seq(ctx, case):
         raise HarnessBug(f)
     if not applicable:
         return None
+    # the same failing call again (2-3 times in a row): every repetition must behave like the first
+    if len(P.lines) - fault_start == 1:
+        for _ in range(case.get("rep", 1) - 1):
+            P.add(P.lines[fault_start], P.checks[fault_start])
     # unchanged: full dump against the model, ledger, then the valid suffix
     r.check()
     if et == "Probe":
@@ -264,7 +377,12 @@ def run_map(ctx, case):
     badk = OTHER[kt]
     badv = OTHER[vt]
     applicable = True
-    if f == "get-absent":
+    fault_start = len(P.lines)
+    if f in ("mem-nullkey", "rem-nullkey"):
+        P.add("%s %s null" % (f[:3], c), expect_exc("ValueError"))
+    elif f in ("assign-nonmap", "assign-null"):
+        P.add("assign %s %s" % (c, "null" if f == "assign-null" else "i:5"), expect_exc("ValueError", *WRONG))
+    elif f == "get-absent":
         P.add("get %s %s" % (c, absent), expect_exc("KeyError"))
     elif f == "rem-absent":
         P.add("rem %s %s" % (c, absent), expect_exc("KeyError"))
@@ -301,6 +419,9 @@ def run_map(ctx, case):
         raise HarnessBug(f)
     if not applicable:
         return None
+    if len(P.lines) - fault_start == 1:
+        for _ in range(case.get("rep", 1) - 1):
+            P.add(P.lines[fault_start], P.checks[fault_start])
     r.check()
     if kt == "Probe" or vt == "Probe":
         P.add("live", expect_ok("live=%d ledger=-" % (((kt == "Probe") + (vt == "Probe")) * len(r.model))))
@@ -336,6 +457,8 @@ def run_str(ctx, case):
         if known_off(key) and not case.get("strict"):
             # listed finding: the conversions before the missing argument were already written
             model = model + b"1 "
+    elif f in ("print-too-few-gen", "scan-too-few"):
+        return run_fmt(ctx, case, P, model)
     elif f == "push-unimplemented":
         P.add("push %0 i:1", expect_exc("ClassError"))
         P.add("pop %0", expect_exc("ClassError"))
@@ -354,10 +477,160 @@ def run_str(ctx, case):
     return fail, len(model) > 0, ["str:" + f]
 
 
+FMT_ARG = {"i": "i:42", "li": "i:-7", "5i": "i:3", "s": "s:7478", "-6s": "s:71", "f": "f:3ff8000000000000", ".2f": "f:4004000000000000",
+           "$": "i:9", "c": "i:65"}
+# what scanning the text produced by FMT_TEXT into the destination gives
+FMT_TEXT = {"i": b"42", "li": b"-7", "5i": b"3", "s": b"tx", "-6s": b"q", "f": b"1.5", ".2f": b"2.5", "c": b"A", "$": b"9"}
+FMT_DST = {"i": "Int", "li": "Int", "5i": "Int", "s": "String", "-6s": "String", "f": "Float", ".2f": "Float", "c": "Int", "$": "Int"}
+
+
+def run_fmt(ctx, case, P, model):
+    """too few arguments for a generated format: print_to (String / File sink) and scan_from (String / File source).
+    %0 is a heap String holding `model`."""
+    f, convs, nargs, lits = case["fault"], case["convs"], case["nargs"], case["lits"]
+    seen = {}
+    if f == "print-too-few-gen":
+        fmt = "".join(lits[i] + "%" + cv for i, cv in enumerate(convs)) + lits[4]
+        args = " ".join(FMT_ARG[cv] for cv in convs[:nargs])
+        if case["sink"] == "File":
+            P.add(("fprint 0 %s %s" % (fmt.encode().hex(), args)).rstrip(), expect_exc("FormatError"))
+            P.add("cstr %0", expect_ok(model.hex()))
+        else:
+            pos = 0 if case["pos"] == "start" else len(model)
+            P.add(("print %%0 %d %s %s" % (pos, fmt.encode().hex(), args)).rstrip(), expect_exc("FormatError"))
+            listed = known_off("print-too-few-partial-output") and not case.get("strict")
+
+            def chk(o, listed=listed, keep=model[:pos], whole=model):
+                if not o.startswith("ok"):
+                    return "sink unusable after the rejected print: " + o
+                got = bytes.fromhex(o[3:].strip())
+                seen["s"] = got
+                if not listed:
+                    return None if got == whole else "sink changed by the rejected print: %r -> %r" % (whole, got)
+                # listed finding: the conversions before the missing argument were already written; everything in
+                # front of the write position is still demanded unchanged
+                return None if got[:len(keep)] == keep else "text in front of the write position changed: %r -> %r" % (whole, got)
+            P.add("cstr %0", chk)
+            suf = bytes.fromhex(case["suffix"])
+            P.add("concat %%0 s:%s" % suf.hex())
+            P.add("cstr %0", lambda o: None if o.startswith("ok") and o[3:].strip() == (seen.get("s", b"") + suf).hex()
+                  else "sink not usable after the rejected print: %s" % o)
+            P.add("del %0")
+            fail, obs = P.run(ctx.executor("ex_vm"))
+            return fail, len(model) > 0, ["str:" + f, "sink=String", "nconv=%d" % len(convs)]
+    else:
+        fmt = " ".join("%" + (cv if cv not in ("5i", "-6s", ".2f", "$") else {"5i": "i", "-6s": "s", ".2f": "f", "$": "i"}[cv]) for cv in convs)
+        text = b" ".join(FMT_TEXT[cv] for cv in convs)
+        for j, cv in enumerate(convs[:nargs]):
+            P.add("new %%%d heap t:%s %s" % (10 + j, FMT_DST[cv], {"Int": "i:0", "String": "s:" + "7a" * 24, "Float": "f:0000000000000000"}[FMT_DST[cv]]))      # %s stores into the destination's own buffer (C semantics): it has room
+        dsts = " ".join("%%%d" % (10 + j) for j in range(nargs))
+        if case["sink"] == "File":
+            P.add(("fscan %s %s %s" % (text.hex(), fmt.encode().hex(), dsts)).rstrip(), expect_exc("FormatError"))
+        else:
+            P.add("new %%5 heap t:String s:%s" % text.hex())
+            P.add(("scan %%5 0 %s %s" % (fmt.encode().hex(), dsts)).rstrip(), expect_exc("FormatError"))
+            P.add("cstr %5", expect_ok(text.hex()))           # the source is unchanged
+        # the destinations stay valid objects of their type (their values are not asserted: the conversions in front of the
+        # missing destination may already have been stored - the scan twin of print-too-few-partial-output)
+        for j, cv in enumerate(convs[:nargs]):
+            P.add("typeof %%%d" % (10 + j), lambda o, t=FMT_DST[cv]: None if o.startswith("ok %s " % t) else "destination damaged: " + o)
+            P.add("repr %%%d" % (10 + j), lambda o: None if o.startswith("ok") else "destination unusable: " + o)
+        P.add("cstr %0", expect_ok(model.hex()))
+    suf = bytes.fromhex(case["suffix"])
+    P.add("concat %%0 s:%s" % suf.hex())
+    P.add("cstr %0", expect_ok((model + suf).hex()))
+    P.add("del %0")
+    fail, obs = P.run(ctx.executor("ex_vm"))
+    return fail, len(model) > 0, ["str:" + f, "sink=" + case["sink"], "nconv=%d" % len(convs)]
+
+
 def run_val(ctx, case):
     P = Prog()
     f = case["fault"]
     n = case["n"]
+    if f in ("zip-get-idx", "map-get-idx", "filter-get"):
+        # views: a rejected get leaves the view walkable from the start with the same items
+        m = case.get("m", 3)
+        a = list(range(1, n + 1))
+        b = list(range(30, 30 + m))
+        P.add("new %%1 heap t:Array t:Int %s" % " ".join("i:%d" % v for v in a))
+        P.add("new %%2 heap t:List t:Int %s" % " ".join("i:%d" % v for v in b))
+        heap = case.get("form", "heap") == "heap"
+        if f == "zip-get-idx":
+            P.add("new %0 heap t:Zip %1 %2" if heap else "stk %0 zip %1 %2")
+            cnt = min(n, m)
+            want = "[%s]" % ",".join("U[i%d,i%d]" % p for p in zip(a, b))
+            i = bad_index(case["idx"], cnt)
+            P.add("get %%0 i:%d" % i, expect_exc(IDX))
+            P.add("get %0 s:78", expect_exc(*WRONG))
+        elif f == "map-get-idx":
+            P.add("new %0 heap t:Map %1 fn:id" if heap else "stk %0 map %1 fn:id")
+            cnt = n
+            want = "[%s]" % ",".join("i%d" % v for v in a)
+            P.add("get %%0 i:%d" % bad_index(case["idx"], cnt), expect_exc(IDX))
+        else:
+            P.add("new %0 heap t:Filter %1 fn:all" if heap else "stk %0 filter %1 fn:all")
+            cnt = n
+            want = "[%s]" % ",".join("i%d" % v for v in a)
+            P.add("get %0 i:0", expect_exc("ClassError"))          # Get instance present, member get left empty
+            P.add("len %0", expect_exc("ClassError"))              # class Len not implemented
+            P.add("set %0 i:0 i:1", expect_exc("ClassError"))
+        P.add("fwd %%0 %d" % (2 * cnt + 4), expect_ok(want))
+        P.add("repr %1", expect_ok("A[%s]" % ",".join("i%d" % v for v in a)))
+        P.add("repr %2", expect_ok("L[%s]" % ",".join("i%d" % v for v in b)))
+        fail, obs = P.run(ctx.executor("ex_vm"))
+        return fail, cnt > 0, ["val:" + f, "form=" + case.get("form", "heap")]
+    if f == "unimpl":
+        ti, oi = UNIMPL_CELLS[case.get("u", 0) % len(UNIMPL_CELLS)]
+        ctor, dump, ops = UNIMPL[ti]
+        P.add("new %%0 heap %s" % ctor)
+        for _ in range(case.get("rep", 1)):
+            P.add(ops[oi], expect_exc("ClassError"))
+        P.add("repr %0", expect_ok(dump))
+        P.add("del %0")
+        fail, obs = P.run(ctx.executor("ex_vm"))
+        return fail, True, ["val:unimpl", "unimpl:%s:%s" % (ctor.split()[0][2:], ops[oi].split()[0])]
+    if f == "ctor-baditem":
+        # a constructor given one item that cannot be stored: the exception is raised, a following collection is clean
+        # (the half-built object is not handed out, but it is the collector's to sweep), every element that was built is
+        # finalised exactly once, and the next container of the same kind works
+        kind, et, cn, bad, how = case["kind"], case["et"], case["n"], case["bad"], case["how"]
+        good = seqs_default(et)
+        badlit = "null" if how == "null" else OTHER[et]
+        if et == "Probe":
+            P.add("pmode 0")
+        if kind in ("Array", "List"):
+            items = [good] * cn
+            items[bad] = badlit
+            P.add("new %%0 heap t:%s t:%s %s" % (kind, et, " ".join(items)), expect_exc("ValueError", *WRONG))
+        else:
+            pairs = []
+            for j in range(cn):
+                k, v = maps.filler_key(et, j), maps.filler_val(et, j)
+                if j == bad:
+                    if case.get("side", "val") == "key":
+                        k = badlit
+                    else:
+                        v = badlit
+                pairs += [k, v]
+            P.add("new %%0 heap t:%s t:%s t:%s %s" % (kind, et, et, " ".join(pairs)), expect_exc("ValueError", *WRONG))
+        P.add("collect")
+        if et == "Probe":
+            # the half-built object is garbage, but a conservative collection need not find that out at once: only the
+            # ledger's invariants (no double finalise, no use of a finalised element) are demanded here
+            P.add("live", lambda o: None if o.startswith("ok live=") and o.endswith("ledger=-") else "ledger after the rejected constructor: " + o)
+        if kind in ("Array", "List"):
+            P.add("new %%1 heap t:%s t:%s %s %s" % (kind, et, good, good))
+            P.add("repr %1", expect_ok("%s[%s,%s]" % (kind[0], lit_repr(good), lit_repr(good))))
+        else:
+            P.add("new %%1 heap t:%s t:%s t:%s %s %s" % (kind, et, et, maps.filler_key(et, 0), maps.filler_val(et, 0)))
+            P.add("len %1", expect_ok("1"))
+        P.add("del %1")
+        P.add("collect")
+        if et == "Probe":
+            P.add("live", lambda o: None if o.startswith("ok live=") and o.endswith("ledger=-") else "ledger after the rejected constructor: " + o)
+        fail, obs = P.run(ctx.executor("ex_vm"))
+        return fail, cn > 1, ["val:ctor-baditem", "ctor=" + kind, "bad=" + how]
     if f == "range-get-idx":
         step = case["step"]
         P.add("new %%0 heap t:Range i:0 i:%d i:%d" % (n, step))
@@ -461,13 +734,44 @@ def extra_phase(ctx, tier, stats, sample_fn):
                          "at": (n * 1001) // (len(ops) + 1) + 1, "fault": f, "k": 3})
     for init in (b"", b"a", b"hello world"):
         for f in STR_FAULTS:
+            if f in ("print-too-few-gen", "scan-too-few"):
+                continue          # enumerated below with their formats
             run({"fam": "str", "init": init.hex(), "fault": f, "suffix": b"xy".hex()})
     for f in VAL_FAULTS:
+        if f == "unimpl":
+            for u in range(len(UNIMPL_CELLS)):
+                run({"fam": "val", "fault": f, "idx": "len", "n": 1, "step": 1, "u": u, "rep": 1 + u % 2})
+            continue
+        if f == "ctor-baditem":
+            for kind in ("Array", "List", "Table", "Tree"):
+                for et in ("Int", "String", "Probe"):
+                    for n in (1, 2, 5):
+                        for bad in sorted(set([0, n // 2, n - 1])):
+                            for how in ("wrongtype", "null"):
+                                for side in (("key", "val") if kind in ("Table", "Tree") else ("val",)):
+                                    run({"fam": "val", "fault": f, "idx": "len", "n": n, "step": 1, "kind": kind, "et": et, "bad": bad,
+                                         "how": how, "side": side})
+            continue
         for n in (0, 1, 7):
             idxs = IDXKINDS if f.endswith("-idx") else ["len"]
             for ik in idxs:
                 for step in ((1, 3, -2) if f == "range-get-idx" else (1,)):
+                    if f in ("zip-get-idx", "map-get-idx", "filter-get"):
+                        for form in ("heap", "stack"):
+                            for m in ((0, 1, 7, 9) if f == "zip-get-idx" else (3,)):
+                                run({"fam": "val", "fault": f, "idx": ik, "n": n, "step": step, "form": form, "m": m})
+                        continue
                     run({"fam": "val", "fault": f, "idx": ik, "n": n, "step": step})
+    # generated formats with too few arguments: every conversion in every position, both sinks
+    CV = ["i", "s", "f", "$", "c", "li", "5i", "-6s", ".2f"]
+    for f in ("print-too-few-gen", "scan-too-few"):
+        for ci, cv in enumerate(CV):
+            for nconv in (1, 2, 4):
+                convs = [CV[(ci + j) % len(CV)] for j in range(nconv)]
+                for nargs in sorted(set([0, nconv - 1])):
+                    for sink in ("String", "File"):
+                        run({"fam": "str", "init": b"hello".hex(), "fault": f, "suffix": b"xy".hex(), "convs": convs, "nargs": nargs,
+                             "sink": sink, "pos": "end" if ci % 2 else "start", "lits": ["", " ", "x", ", ", "ab "]})
     return {"fails": fails[:12], "extra": {"matrix_cells_enumerated": cells, "matrix_failures": len(fails)}}
 
 
